@@ -282,13 +282,12 @@ def _fn_consts(x, acc, by_norm):
 
 
 def _same_home(caller, callee):
-    """a piece of a function moved into a helper stays with it: a method of the same type, or a free function of the same
-    file.  A new function on *another* type is new API of that type, not a piece of the caller — it is
+    """a piece of a function moved into a helper stays with it: a method of the same type, or a free function.  A new function on *another* type is new API of that type, not a piece of the caller — it is
     left alone, and the rules that scan that type's functions see it as one of them."""
     a, b = caller.get("impl_adt"), callee.get("impl_adt")
     if b:
         return a == b
-    return caller.get("file") == callee.get("file")
+    return True
 
 
 def apply(data):
